@@ -114,7 +114,7 @@ class PyVC(ExprMixin, CallMixin, StmtMixin, Engine):
             st.env[a.vararg.arg] = self.typed(z, t)
             st.assume(self.type_pred(z, t))
             st.assume(u.r(z) < alloc0)
-            st.assume(self.heap_array(st, "$len")[u.r(z)] >= 0)
+            st.assume(self.seq_len(st, st.env[a.vararg.arg]) >= 0)
         if a.kwarg:
             z = z3.Const("arg_%s" % a.kwarg.arg, u.Val)
             st.env[a.kwarg.arg] = self.typed(z, "dict")
@@ -275,22 +275,28 @@ class PyVC(ExprMixin, CallMixin, StmtMixin, Engine):
 
     # ------------------------------------------------------------------
     def axioms(self):
-        return self.u.literal_axioms()
+        return self.u.literal_axioms() + list(self.global_axioms)
 
 
 # ---------------------------------------------------------------------------
 def check_obligation(vc, ob, rlimit=RLIMIT, use_cvc5=True):
     """Discharge one obligation. Sets ob.status/backend/time/model."""
     t0 = time.time()
-    s = z3.Solver()
-    s.set("rlimit", rlimit)
-    s.set("timeout", TIMEOUT_MS)
-    for ax in vc.axioms():
-        s.add(ax)
-    for f in ob.pc:
-        s.add(f)
-    s.add(z3.Not(ob.goal))
-    r = s.check()
+    r = z3.unknown
+    # pass 1: E-matching only (fast, complete enough for most VCs); pass 2: with MBQI
+    for mbqi in (False, True):
+        s = z3.Solver()
+        s.set("rlimit", rlimit if mbqi else max(rlimit // 4, 1000000))
+        s.set("timeout", TIMEOUT_MS)
+        s.set("mbqi", mbqi)
+        for ax in vc.axioms():
+            s.add(ax)
+        for f in ob.pc:
+            s.add(f)
+        s.add(z3.Not(ob.goal))
+        r = s.check()
+        if r == z3.unsat or (r == z3.sat and mbqi):
+            break
     ob.backend = "z3"
     if r == z3.unsat:
         ob.status = "discharged"
